@@ -15,11 +15,13 @@ NodeOf(kind, eu, ev) ==
   CASE kind = "mixed" -> N(("u" :> Leaf(eu)) @@ ("v" :> Leaf(ev)), <<StrV("e")>>)
     [] kind = "dict"  -> N(("u" :> Leaf(eu)) @@ ("v" :> Leaf(ev)), <<>>)
     [] kind = "list"  -> N(<<>>, <<Leaf(eu), Leaf(ev)>>)
+    \* two names that differ only in letter case: distinct settings, visited in ONE order (C09)
+    [] kind = "cased" -> N(("k" :> Leaf(eu)) @@ ("K" :> Leaf(ev)), <<>>)
 \* p, q: two references to the node s (a diamond over a container); r, r2: a plain reference and a splice using t again
 World(kind, eu, ev, envs, res) ==
   [root |-> N(("s" :> NodeOf(kind, eu, ev)) @@ ("t" :> StrV("ok")) @@ ("p" :> Dyn(Ref("s"))) @@ ("q" :> Dyn(Ref("s")))
               @@ ("r" :> Dyn(Ref("t"))) @@ ("r2" :> Dyn(Cat(<<Lit("pre-"), Ref("t")>>))), <<>>), envs |-> envs, res |-> res]
-ReadNames(kind) == IF kind = "list" THEN <<"s.0", "s.1", "t">> ELSE <<"s.u", "s.v", "t">>
+ReadNames(kind) == IF kind = "list" THEN <<"s.0", "s.1", "t">> ELSE IF kind = "cased" THEN <<"s.k", "s.K", "t">> ELSE <<"s.u", "s.v", "t">>
 \* ONE Unpack into a struct { R interface{}; R2 string; RR interface{} (again r); P, Q []interface{} or interface{} }:
 \* every field is the value of its setting, read for itself - using a name twice, or reaching a container along two
 \* paths, is no cycle
@@ -55,9 +57,10 @@ E1 == N(("m" :> StrV("e1")), <<>>)
 R1 == ("m" :> "r1") @@ ("zz" :> "rz")
 Init == shp \in Shapes /\ cs = <<>>
 Next == /\ cs = <<>> /\ UNCHANGED shp
-        /\ \E kind \in {"mixed", "dict", "list"}, ev \in Shapes, envs \in {<<>>, <<E1>>}, res \in {<<>>, <<R1>>} :
+        /\ \E kind \in {"mixed", "dict", "list", "cased"}, ev \in Shapes, envs \in {<<>>, <<E1>>}, res \in {<<>>, <<R1>>} :
               cs' = <<kind, ev, envs, res>> /\ PrintT(ToJson(Case(kind, World(kind, shp, ev, envs, res))))
 View == <<shp, cs = <<>> >>
 TabMixed == ("s.u" :> <<NF("s"), NF("u")>>) @@ ("s.v" :> <<NF("s"), NF("v")>>) @@ ("s.0" :> <<NF("s"), IX(0)>>) @@ ("s.1" :> <<NF("s"), IX(1)>>)
+            @@ ("s.k" :> <<NF("s"), NF("k")>>) @@ ("s.K" :> <<NF("s"), NF("K")>>)
 TypeOK == shp \in Shapes
 ==========================================================================
